@@ -462,6 +462,33 @@ func (c *Ctx) checkNullableLookups() {
 					continue
 				}
 			}
+			if us.src.arg == nil && us.src.name == "store.mediaHandler" {
+				// the test sits in every caller (`if mediaHandler != nil { ids := attachmentFileIds(urls) }`);
+				// the global is assigned once at start-up (trusted), so the caller's test covers the helper's load
+				isMedia := func(v ssa.Value) bool {
+					u, ok := core.Strip(v).(*ssa.UnOp)
+					if !ok || u.Op != token.MUL {
+						return false
+					}
+					g, ok := u.X.(*ssa.Global)
+					return ok && g.Object() == mediaGlobal
+				}
+				callers := c.callersOf(fn)
+				all := len(callers) > 0
+				for _, cs := range callers {
+					saved := core.NoLift
+					core.NoLift = true
+					okG, cnt := core.GuardedBy(cs.Caller, cs.Site.(ssa.Instruction), core.NilGuard("mediaHandler != nil", isMedia, false))
+					core.NoLift = saved
+					if !(okG && cnt[0] > 0) {
+						all = false
+					}
+				}
+				if all {
+					r.OK("C13.2-nullable-lookup", construct+" [tested by every caller]", pos, "every call site of the helper is behind mediaHandler != nil")
+					continue
+				}
+			}
 			if onlyStartup {
 				r.OK("C13.2-nullable-lookup", construct+" [start-up]", pos, "exception: runs only on the main goroutine before serving (configuration error, not client input)")
 				continue
